@@ -9,6 +9,7 @@ R/V: TLC behaviours plus sweeps over real requests - every listed corruption
    blind; wrong client; malformed client keys), alone and after accepted state
    exists - recorded with a recording cache and validated by Trace_Attester."""
 import vlib
+from checks import ages_common as ag
 from checks import verdicts_common as vc
 from checks import attester_common as ac
 
@@ -19,7 +20,9 @@ def run(ctx):
     n, cases, kinds, steps, nbeh = ac.run(ctx, "Trace_Attester_C06.cfg", ["tlc", "sweep"], ctx.pick(3, 3))
     vn, vcases, vdepth = vc.run(ctx, ['attester'])   # Verdicts.tla: every history of presentations on one long-lived object
     rej = sum(1 for c in cases for s in c["steps"] if s.get("k") == "V" and s.get("q") != "good")
+    an, acases = ag.run(ctx, ['attester'])   # Ages.tla: every schedule of phases on one long-lived object, each phase scaled to n operations
     return ctx.finish({
+        **ag.coverage(an, acases),
         "traces_validated_against_impl": len(cases),
         "events_validated": n,
         "evaluations": steps,
@@ -40,6 +43,8 @@ def run(ctx):
 
 
 def replay(ctx, path):
+    if vlib.json.load(open(path)).get("family") == "ages":
+        return ag.replay(ctx, path)
     if vlib.json.load(open(path)).get("family") == "verdicts":
         return vc.replay(ctx, path)
     return ctx.replay_case(path, "attester", "Trace_Attester", cfg="Trace_Attester_C06.cfg")
